@@ -680,7 +680,6 @@ def lattice_pair_cases(rng, n_cases):
         d = rng.choice(DIRS, 2).astype(float)
         while not d.any():
             d = rng.choice(DIRS, 2).astype(float)
-        n_par = 0
         if mode in (0, 4):      # through a vertex / an end point at a dyadic parameter
             t = float(rng.choice([0, 0.25, 0.5, 0.75, 1]))
             a = v - t * d
@@ -695,7 +694,6 @@ def lattice_pair_cases(rng, n_cases):
             dd = p1[k + 1] - p1[k]
             a = p1[k] + 0.5 * dd
             p2 = [a, a + dd]
-            n_par = 4
         else:                    # parallel, shifted
             k = int(rng.integers(0, len(p1) - 1))
             dd = p1[k + 1] - p1[k]
@@ -714,7 +712,6 @@ def degenerate_float_cases(rng, n_cases):
         p1 = gen_polyline(rng, int(rng.integers(1, 8)), "walk", scale, rng.normal(size=2) * scale)
         mode = int(rng.integers(0, 4))
         k = int(rng.integers(0, len(p1) - 1))
-        n_par = 0
         if mode == 0:
             v = p1[int(rng.integers(0, len(p1)))]
             p2 = np.array([v, v + rng.normal(size=2) * scale, v + rng.normal(size=2) * scale])
@@ -726,12 +723,10 @@ def degenerate_float_cases(rng, n_cases):
         elif mode == 2:
             dd = p1[k + 1] - p1[k]
             p2 = np.array([p1[k] + 0.25 * dd, p1[k] + 1.5 * dd])
-            n_par = 4
         else:
             dd = p1[k + 1] - p1[k]
             sh = np.array([-dd[1], dd[0]]) * rng.uniform(0.01, 0.5)
             p2 = np.array([p1[k] + sh, p1[k + 1] + sh])
-            n_par = 4
         yield {"kind": "inter", "gen": "degenerate", "x1": p1[:, 0].tolist(), "y1": p1[:, 1].tolist(),
                "x2": p2[:, 0].tolist(), "y2": p2[:, 1].tolist()}
 
